@@ -168,9 +168,23 @@ func TestC18_deterministic(t *testing.T) {
 			}
 		}
 		if rapid.Bool().Draw(t, "sameconfig") {
-			c.Other.Config, c.Other.Param = c.Main.Config, c.Main.Param
-			if cfg, _ := findConfig(c.Other.Config); cfg.Heavy && c.Other.Depth > 2 {
-				c.Other.Depth = 2
+			// the other root keeps its position; its depth is re-estimated for the new configuration, and a
+			// capture search is not put on a busy board (its tree is unbounded for practical purposes)
+			ncfg, _ := findConfig(c.Main.Config)
+			if og, err := (gen.GameCase{FEN: c.Other.FEN, Moves: c.Other.Moves}).Build(); err == nil {
+				pieces := 0
+				for _, pc := range og.Cur().Pos.Sq {
+					if pc != 0 {
+						pieces++
+					}
+				}
+				if !ncfg.Quiescence || pieces <= 14 {
+					c.Other.Config, c.Other.Param = c.Main.Config, c.Main.Param
+					c.Other.Depth = min(c.Other.Depth, estimateDepth(og, ncfg, 5, 60_000))
+					if ncfg.Heavy && c.Other.Depth > 2 {
+						c.Other.Depth = 2
+					}
+				}
 			}
 		}
 		c.SeedA = rapid.SampledFrom(hashSeeds).Draw(t, "seeda")
@@ -497,7 +511,13 @@ var checkC18Others = def("C18/otherengines", func(c otherEnginesCase) error {
 	how := "before"
 	if c.Alongside {
 		how = "alongside"
-		if _, err := other.Analyze(ctx, searchctl.Options{}); err != nil {
+		// bounded: an unlimited analysis left running under load grows without limit (every position a
+		// search visits stays in the fork's repetition map), which would exhaust the shard's memory
+		extra := 2
+		if cfg.Quiescence || cfg.Heavy {
+			extra = 1
+		}
+		if _, err := other.Analyze(ctx, searchctl.Options{DepthLimit: lang.Some(uint(c.Depth + extra))}); err != nil {
 			return err
 		}
 	} else if _, err := analyzeToEnd(other, c.Depth+1); err != nil {
